@@ -38,6 +38,7 @@ func TestMain(m *testing.M) {
 	vh.QuietLog()
 	vh.Rule("also: after a response that announced a packet size, a request longer than one packet is sent on the same (older) channel: every packet but the last has exactly the announced size, only the last carries EOM, no byte missing")
 	vh.Rule("also: failing callbacks that return (true, err)")
+	vh.Rule("also: a send on the channel completes after the first k packets of the response have arrived (a quarter of the fragmented responses; every single cut of the special-package response): a message or environment change standing half-received at that moment is still reported exactly once")
 	vh.Main(m, "C11")
 }
 
@@ -59,6 +60,11 @@ type round struct {
 	// Fin: the failing callback returns (true, err) - "finished, with this error" (the pattern of
 	// the function's documentation) - instead of (false, err)
 	Fin bool `json:"callback_returns_true_with_its_error,omitempty"`
+	// SendAt: (k > 0) a send on the channel completes after the first k packets of the response
+	// have arrived (the request whose Write returns while the server is already answering, or
+	// the next request of a pipelining caller): what stands half-received at that moment - a
+	// message or an environment change cut by the packet boundary - is still reported
+	SendAt int `json:"send_completes_after_packet,omitempty"`
 }
 
 type c11Case struct {
@@ -232,7 +238,13 @@ func runCase(c c11Case) (f *vh.Failure) {
 		if r.FailAt >= 0 && r.Poll {
 			go func() { defer close(polled); until() }()
 		}
-		for _, p := range rc.Packetise(stream, r.Cuts, rc.BufResponse, 0) {
+		for pi, p := range rc.Packetise(stream, r.Cuts, rc.BufResponse, 0) {
+			if r.SendAt > 0 && pi == r.SendAt {
+				if err := ch.SendPackage(bg, &tds.LanguagePackage{Cmd: "select 1"}); err != nil {
+					return vh.Failf("C11/send-error", "%s: SendPackage after packet %d of the response: %v", where, pi, err)
+				}
+				vh.Label("send-completes-while-the-response-arrives")
+			}
 			ch.WritePacket(&tds.Packet{Header: tds.PacketHeader{MsgType: tds.TDS_BUF_RESPONSE, Status: tds.PacketHeaderStatus(p.Status), Length: uint16(8 + len(p.Body))}, Data: p.Body})
 			if r.FailAt < 0 {
 				recv()
@@ -516,6 +528,9 @@ func TestHooks(t *testing.T) {
 			r.Pkgs = respgen.Gen(rt, respgen.Opts{MaxStatements: 3, MaxEED: 6, MaxEnv: 3, PackSizes: true})
 			stream, _, _, _ := rc.EncodeStream(r.Pkgs)
 			r.Cuts = respgen.Cuts(rt, len(stream), true)
+			if len(r.Cuts) > 0 && rapid.IntRange(0, 3).Draw(rt, "sendat?") == 0 {
+				r.SendAt = rapid.IntRange(1, len(r.Cuts)).Draw(rt, "sendat")
+			}
 			if rapid.IntRange(0, 2).Draw(rt, "until") == 0 {
 				r.FailAt = rapid.IntRange(0, 6).Draw(rt, "failat")
 				r.Fin = rapid.IntRange(0, 2).Draw(rt, "fin") == 0
@@ -555,6 +570,10 @@ func TestSpecialPackagesEveryCut(t *testing.T) {
 	for a := 1; a < len(stream); a++ {
 		for _, failAt := range []int{-1, 0, 1} {
 			if !e.Do(c11Case{Rounds: []round{{NewEEDHooks: 2, NewEnvHooks: 2, Pkgs: ps, Cuts: []int{a}, FailAt: failAt, WrapEOF: a%2 == 0}, {NewEEDHooks: 1, Pkgs: ps, Cuts: []int{a, a + 1}, FailAt: -1}}}) {
+				return
+			}
+			// the same with a send completing between the two packets
+			if !e.Do(c11Case{Rounds: []round{{NewEEDHooks: 2, NewEnvHooks: 2, Pkgs: ps, Cuts: []int{a}, FailAt: failAt, WrapEOF: a%2 == 0, SendAt: 1}, {NewEEDHooks: 1, Pkgs: ps, Cuts: []int{a, a + 1}, FailAt: -1, SendAt: 1 + a%2}}}) {
 				return
 			}
 		}
